@@ -21,10 +21,13 @@ pub fn payload_bytes(n: usize, seed: u8) -> Vec<u8> {
         .collect()
 }
 
-pub const IDSETS: [([u8; 4], [u8; 4], [u8; 4]); 3] = [
+pub const IDSETS: [([u8; 4], [u8; 4], [u8; 4]); 5] = [
     (*b"ECU1", *b"APP1", *b"CTX1"),
     ([b'E', 0, 0, 0], [b'A', 0, 0, 0], [0, 0, 0, 0]),
     ([0xFF, 0x01, 0xFF, 0x01], [0x01, 0xFF, 0x7F, 0x80], [b'D', b'T', 0x01, b'S']),
+    // ids that start with a NUL byte (the header ECU differs from the storage header's)
+    ([0, b'C', b'U', b'2'], [0, b'P', b'P', b'2'], [0, b'T', b'X', b'2']),
+    ([0, 0, 0, 0], [0, 0, 0, 0], [0, 0, 0, 1]),
 ];
 
 pub fn shape(framing: &Framing, flags: u8, psize: usize, idset: usize, mcnt: u8, seq: usize) -> MsgSpec {
@@ -32,7 +35,7 @@ pub fn shape(framing: &Framing, flags: u8, psize: usize, idset: usize, mcnt: u8,
     let mut m = MsgSpec {
         framing: framing.clone(),
         htyp: VERS1 | flags,
-        storage_ecu: if idset == 0 { *b"STO1" } else { e },
+        storage_ecu: if idset == 0 || idset >= 3 { *b"STO1" } else { e },
         hdr_ecu: e,
         apid: a,
         ctid: c,
@@ -258,7 +261,7 @@ impl Prop for C01 {
         Meta {
             id: "C01",
             level: "exploration",
-            rule: "exhaustive product: message shapes (all 32 UEH/MSBF/WEID/WSID/WTMS combinations x payload sizes {0,1,2,3,4,5,9,max} x 3 id sets x mcnt {0,255}) x garbage runs (12 lengths x 8 contents incl. marker prefixes and a header look-alike) before/between/after x both framings x start index {0,1000}; singles, all ordered pairs of the 32 shapes, triples over a 6-shape core. Streams are built by an independent byte builder; candidates containing a marker anywhere but at a message start are rejected and counted (premise). Oracle: field-by-field equality, consecutive indices, skipped+tail = garbage, tail <= min(trailing garbage, minimal message - 1), processed <= input. Non-trivial = at least one byte was skipped.".into(),
+            rule: "exhaustive product: message shapes (all 32 UEH/MSBF/WEID/WSID/WTMS combinations x payload sizes {0,1,2,3,4,5,9,max} x 5 id sets (printable, NUL padded, arbitrary bytes, NUL-leading with a different storage-header ECU, all NUL) x mcnt {0,255}) x garbage runs (12 lengths x 8 contents incl. marker prefixes and a header look-alike) before/between/after x both framings x start index {0,1000}; singles, all ordered pairs of the 32 shapes, triples over a 6-shape core. Streams are built by an independent byte builder; candidates containing a marker anywhere but at a message start are rejected and counted (premise). Oracle: field-by-field equality, consecutive indices, skipped+tail = garbage, tail <= min(trailing garbage, minimal message - 1), processed <= input. Non-trivial = at least one byte was skipped.".into(),
             assumptions: vec!["payload/garbage bytes come from the stated pattern sets, not all byte values".into(),
                 "serial-framed messages have no reception time in the stream; the synthesised one is not compared".into()],
             budget_s: (90, 1200),
@@ -271,13 +274,13 @@ impl Prop for C01 {
         let thorough = ctx.tier == Tier::Thorough;
         let framings = [Framing::Storage, Framing::Serial];
         // (a) singles: every shape variant x reduced garbage before/after
-        ctx.begin_family("singles", "32 flag sets x 8 payload sizes x 3 id sets x 2 mcnt x 2 framings x (G_small)^2");
+        ctx.begin_family("singles", "32 flag sets x 8 payload sizes x 5 id sets x 2 mcnt x 2 framings x (G_small)^2");
         let mut done = true;
         'a: for fr in &framings {
             for flags in 0u8..32 {
                 for (pi, ps) in PSIZES.iter().enumerate() {
                     // max-size messages (64 KiB each): id set 0 only in quick
-                    for ids in 0..3 {
+                    for ids in 0..IDSETS.len() {
                         if *ps == usize::MAX && !thorough && ids != 0 {
                             continue;
                         }
